@@ -86,6 +86,9 @@ extern size_t verif_j, verif_k;
 	 ((res) == 0U || VERIF_IKEY((tgt)[(res) - 1U]) < VERIF_KEY(y, m, d, H, M, S)) && \
 	 (!(verif_j + 1U < (res)) || VERIF_IKEY((tgt)[verif_j]) < VERIF_IKEY((tgt)[(res) - 1U])) && \
 	 (!(verif_j < verif_k && verif_k < (res)) || VERIF_IKEY((tgt)[verif_j]) < VERIF_IKEY((tgt)[verif_k])))
+/* the day a (possibly overflowing) day-of-month cursor denotes */
+# define VERIF_CURSOR_DAYNO(y, m, d)	(S_DAYNO(y, m, 1) + (int)(d) - 1)
+extern int verif_step_dn;
 /* make_enum: N values delivered into ARR so far, REM left in the container
  * whose view is VU behind the cursor IT; what is left lies at or above N and
  * above every value delivered; the witness slots hold members, in increasing order */
@@ -1709,6 +1712,9 @@ rrul_fill_dly(echs_instant_t *restrict tgt, size_t nti, rrulsp_t rr)
 	     /* and stop at the end of the supported range */
 	     res < nti && y <= 2099U;
 	     ({
+#if defined ECHSE_VERIF
+		     verif_step_dn = VERIF_CURSOR_DAYNO(y, m, d);
+#endif	/* ECHSE_VERIF */
 		     d += rr->inter;
 		     w += rr->inter;
 		     if (w > SUN) {
@@ -1718,7 +1724,11 @@ rrul_fill_dly(echs_instant_t *restrict tgt, size_t nti, rrulsp_t rr)
 #if defined ECHSE_VERIF
 		     __CPROVER_assigns(y, m, d, maxd)
 		     __CPROVER_loop_invariant(
-			     1U <= m && m <= 12U && 1U <= d && d <= 100U && y <= 2200U && y + d <= 2200U &&
+			     1U <= m && m <= 12U && 1U <= d && d <= 1100U && 1600U <= y && y <= 2200U && __CPROVER_loop_entry(y) <= 2099U &&
+			     /* every month carried takes at least 28 days off d */
+			     28U * (12U * y + m) + d <= 28U * (12U * __CPROVER_loop_entry(y) + __CPROVER_loop_entry(m)) + __CPROVER_loop_entry(d) &&
+			     /* the carry does not change the day the cursor denotes */
+			     VERIF_CURSOR_DAYNO(y, m, d) == VERIF_CURSOR_DAYNO(__CPROVER_loop_entry(y), __CPROVER_loop_entry(m), __CPROVER_loop_entry(d)) &&
 			     maxd == (unsigned int)S_MDAYS(y, m) &&
 			     ((y == __CPROVER_loop_entry(y) && m == __CPROVER_loop_entry(m) && d == __CPROVER_loop_entry(d)) ||
 			      y > __CPROVER_loop_entry(y) || (y == __CPROVER_loop_entry(y) && m > __CPROVER_loop_entry(m))))
@@ -1732,12 +1742,15 @@ rrul_fill_dly(echs_instant_t *restrict tgt, size_t nti, rrulsp_t rr)
 			     }
 			     maxd = echs_scale_ndim(srcsca, y, m);
 		     }
+#if defined ECHSE_VERIF
+		     __CPROVER_assert(VERIF_CURSOR_DAYNO(y, m, d) == verif_step_dn + (int)rr->inter, "DAILY: one step advances the cursor by exactly INTERVAL days");
+#endif	/* ECHSE_VERIF */
 	     }))
 #if defined ECHSE_VERIF
-	__CPROVER_assigns(y, m, d, w, maxd, res, __CPROVER_object_upto(tgt, 2U * GRP_CCH_OFF * sizeof(*tgt)))
+	__CPROVER_assigns(y, m, d, w, maxd, res, verif_step_dn, __CPROVER_object_upto(tgt, 2U * GRP_CCH_OFF * sizeof(*tgt)))
 	__CPROVER_loop_invariant(
 		1U <= m && m <= 12U && 1U <= d && d <= maxd && maxd == (unsigned int)S_MDAYS(y, m) &&
-		1U <= w && w <= 7U && y <= 2200U && res <= nti &&
+		1U <= w && w <= 7U && 1600U <= y && y <= 2200U && res <= nti &&
 		VERIF_DLY_SLOT_OK(tgt, verif_k, res, proto, rr->until))
 	__CPROVER_decreases(2201 - (long)y, 12 - (long)m, 31 - (long)d)
 #endif	/* ECHSE_VERIF */
